@@ -64,8 +64,18 @@ func c19Scenarios(thorough bool) []*schedScenario {
 		scs = append(scs, &schedScenario{Name: "assignip-free-" + ip + "-vs-assign", Cfg: c19Cfg(false), Setup: []vOp{auto("n1", "h0")},
 			Threads: [][]vOp{{{Kind: "assignip", Host: "n1", Handle: "h2", IP: ip}}, {auto("n1", "h3"), auto("n1", "h4")}}})
 	}
+	// one handle used by two hosts under a per-handle allocation limit (the CNI plugin's idempotent
+	// ADD): the loser of the handle race retries from its in-memory block and must not persist the
+	// allocation of its failed attempt; a third client makes the winner lose its block write.
+	maxauto := func(host, h string) vOp { return vOp{Kind: "auto", Host: host, Handle: h, MaxAlloc: 1} }
+	scs = append(scs, &schedScenario{Name: "maxalloc-same-handle-two-hosts", Cfg: c19Cfg(false),
+		Setup:   []vOp{auto("n1", "h0"), auto("n2", "h9")},
+		Threads: [][]vOp{{maxauto("n1", "H")}, {maxauto("n2", "H")}}})
 	if thorough {
 		scs = append(scs,
+			&schedScenario{Name: "maxalloc-same-handle-two-hosts-and-writer", Cfg: c19Cfg(false),
+				Setup:   []vOp{auto("n1", "h0"), auto("n2", "h9")},
+				Threads: [][]vOp{{maxauto("n1", "H")}, {maxauto("n2", "H")}, {auto("n1", "hx")}}},
 			&schedScenario{Name: "three-assign", Cfg: c19Cfg(false), Threads: [][]vOp{{auto("n1", "h1")}, {auto("n1", "h2")}, {auto("n2", "h3")}}},
 			&schedScenario{Name: "assign-release-assign", Cfg: c19Cfg(false), Setup: []vOp{{Kind: "auto", Host: "n1", Handle: "h0", Num: 4}},
 				Threads: [][]vOp{{{Kind: "rbh", Handle: "h0"}}, {auto("n1", "h2")}, {auto("n2", "h3")}}},
